@@ -424,7 +424,7 @@ func (e *c15Env) nextOp(r *rand.Rand, names []string, cur c15Obs) c15Op {
 
 func TestC15(t *testing.T) {
 	r := newRand("C15")
-	w := NewCaseWriter("C15", "PV.Corr.C15", "check_all", scale(40, 150))
+	w := NewCaseWriter("C15", "PV.Corr.C15", "check_all", scale(40, 50))
 	app, baseCtx := newApp(t)
 	type desc map[string]any
 
